@@ -55,6 +55,7 @@ type persistRule struct {
 	errKeyM  string // predicate key of (marshalErr == nil)
 	sites    map[string]token.Pos
 	ix       *ipIndex
+	recCall  *ssa.Call // the call of a record constructor helper, when the record is built in one
 }
 
 func (r *persistRule) Inline(fn *ssa.Function) bool { return PkgOf(fn) == PkgBus && fn != r.R.NameFn }
@@ -274,6 +275,39 @@ func (r *persistRule) isAppendErr(v ssa.Value, d int) bool {
 func (r *persistRule) checkRecord(e *Engine, st *State, fc *FrameCtx, in ssa.Instruction, rec ssa.Value) {
 	rv, _ := e.ArgValue(fc, rec)
 	al, ok := stripConv(rv).(*ssa.Alloc)
+	r.recCall = nil
+	if !ok {
+		// the record may be the result of a constructor helper of the package: exactly one
+		// of its returns hands back a fresh record (the others return nil with the error)
+		v := stripConv(rv)
+		idx := 0
+		var call *ssa.Call
+		if ex, isEx := v.(*ssa.Extract); isEx {
+			idx = ex.Index
+			call, _ = ex.Tuple.(*ssa.Call)
+		} else {
+			call, _ = v.(*ssa.Call)
+		}
+		if call != nil && call.Common().StaticCallee() != nil {
+			if r.ix == nil {
+				r.ix = newIPIndex(r.p)
+			}
+			var found *ssa.Alloc
+			n := 0
+			for _, ret := range r.ix.Returned(v, idx) {
+				ret = stripConv(ret)
+				if k, isK := ret.(*ssa.Const); isK && k.Value == nil {
+					continue
+				}
+				n++
+				found, _ = ret.(*ssa.Alloc)
+			}
+			if n == 1 && found != nil {
+				al, ok = found, true
+				r.recCall = call
+			}
+		}
+	}
 	if !ok {
 		e.Report(st, in.Pos(), "persist-fn/record/shape", "cannot see how the record handed to Append is built (not a composite literal of this function)")
 		return
@@ -318,6 +352,14 @@ func (r *persistRule) checkRecord(e *Engine, st *State, fc *FrameCtx, in ssa.Ins
 
 func (r *persistRule) isEventParam(v ssa.Value) bool {
 	p, ok := stripConv(v).(*ssa.Parameter)
+	if ok && r.recCall != nil && p.Parent() == r.recCall.Common().StaticCallee() {
+		// a parameter of the record constructor: what the persist function passed for it
+		for i, q := range p.Parent().Params {
+			if q == p && i < len(r.recCall.Common().Args) {
+				p, ok = stripConv(r.recCall.Common().Args[i]).(*ssa.Parameter)
+			}
+		}
+	}
 	return ok && p.Parent() == r.R.PersistFn && len(r.R.PersistFn.Params) == 4 && p == r.R.PersistFn.Params[3]
 }
 
